@@ -42,7 +42,7 @@ def run(ctx):
         "'stays on the element carrying that token's text' is read as: if the author id is still present, that element's text contains the token's normalised text; and an author id may only disappear "
         "when its token was merged into another token (the number of output leaves with that text differs from the input's)"])
     rng = ctx.rng
-    n = 1200 if ctx.tier == "quick" else 40000
+    n = 3000 if ctx.tier == "quick" else 60000
     results = canon_run.run_stream(ctx, im, mo, n, canon_run.LOCALES, id_modes=("none", "some", "all", "dup", "some", "all"))
     n_ok = canon_run.summarize(ctx, results)
     oracle_fail, disagreements = [], []
